@@ -236,6 +236,8 @@ def check_keys(prog, model, loop, r4):
     chains = ["A", ""]
     # rows PROPKA can hand over: side-chain groups labelled by residue name, termini labelled N+/C-
     produced = set()
+    from ..objinterp import ObjRunner
+    menv = ObjRunner(prog, "main.py").module_env("main.py")  # constants visible in main.py (its own and imported ones)
     if isinstance(table, ast.DictComp) and len(table.generators) == 1:
         gen = table.generators[0]
         rowname = U(gen.target)
@@ -245,13 +247,22 @@ def check_keys(prog, model, loop, r4):
                     for label in (f"{R:<3}{num:>4} {ch}", f"N+ {num:>4} {ch}", f"C- {num:>4} {ch}"):
                         row = {"res_name": R, "res_num": num, "chain_id": ch, "group_label": label, "pKa": 4.2,
                                "ins_code": " ", "group_type": None}
-                        it = Interp({rowname: row})
+                        it = Interp({**menv, rowname: row})
                         if all(it.truth(it.ev(c), c) for c in gen.ifs):
-                            produced.add((it.ev(table.key), label[:2]))
+                            produced.add((it.ev(table.key), "side-chain" if label[:2] not in ("N+", "C-") else label[:2]))
     else:
         raise AnalysisError("non_trivial: the pKa table handed to apply_pka_values is not a dict comprehension "
                             "(producer left the analysable subset)")
     produced_keys = {k for k, _ in produced}
+    kinds = {}
+    for k, kind in produced:
+        kinds.setdefault(k, set()).add(kind)
+    clash = {k: sorted(v) for k, v in kinds.items() if len(v) > 1}
+    ex = sorted(clash.items())[:2]
+    r4.add("keys-distinguish-groups", not clash,
+           "rows of different titratable groups never share a key of the table" if not clash else
+           f"{len(clash)} keys are produced by rows of different groups, e.g. {ex}: the dictionary keeps the last row, so a terminal residue's "
+           "side chain is titrated with the pKa of its terminus (or vice versa)", f"pdb2pqr/main.py:{producer.lineno} (non_trivial)")
     # consumer templates
     templates = []
     for st in ast.walk(loop):
